@@ -88,7 +88,7 @@ package standard
 //@   // in particular the marks of the duty's own epoch are the same marks
 //@   ensures u64(epochOf(duty.slot) + 2) > epochOf(duty.slot) ==> s.attested[epochOf(duty.slot)] == old(s.attested[epochOf(duty.slot)])
 //@   loop 1
-//@     invariant forall e phase0.Epoch :: visited(e) && u64(e + 2) <= epochOf(duty.slot) ==> !in(s.attested, e)
+//@     invariant forall e phase0.Epoch :: visited(e) && e + 2 <= epochOf(duty.slot) ==> !in(s.attested, e)
 //@     invariant forall e phase0.Epoch :: in(s.attested, e) ==> in(old(s.attested), e)
 //@     invariant forall e phase0.Epoch :: in(old(s.attested), e) && u64(e + 2) > epochOf(duty.slot) ==> in(s.attested, e)
 //@     invariant forall e phase0.Epoch, v phase0.ValidatorIndex :: in(old(s.attested[e]), v) && u64(e + 2) > epochOf(duty.slot) ==> in(s.attested[e], v)
